@@ -180,3 +180,53 @@ Proof. unfold kkt_check, shape_ok. rewrite !andb_true_iff. intros [[[[[Hrows Hb]
       destruct H as [H|H]; [inversion H; exists a, c; auto|]. destruct (IH w H) as [a' [c' [H1 H2]]]. exists a', c'. auto. }
     destruct Hin as [a [c [Hin [-> ->]]]]. specialize (Hzw (a, c) Hin). unfold leb in Hzw. simpl in Hzw.
     apply negb_true_iff, Z.ltb_ge in Hzw. rewrite <- mult_IZR. apply IZR_le. exact Hzw. Qed.
+
+(* ================================================================== the mean-one system at equilibrium (C01, C03) *)
+Definition raug (M : list (list R)) (n : nat) : list (list R) := map (fun r => r ++ [1]) M ++ [repeat 1 n ++ [0]].
+
+Lemma rdot_app (a b c d : list R) : length a = length c -> rdot (a ++ b) (c ++ d) = rdot a c + rdot b d.
+Proof. revert c; induction a as [|x a IH]; intros [|y c] H; simpl in *; try lia; [unfold vdot at 2; simpl; ring|].
+  rewrite !rdot_cons, IH by lia. ring. Qed.
+Lemma rdot_ones (x : list R) : rdot (repeat 1 (length x)) x = rsum x.
+Proof. induction x as [|v t IH]; [reflexivity|]. simpl repeat. rewrite rdot_cons, IH. unfold vsum. simpl. ring. Qed.
+Lemma rmv_app A B x : rmv (A ++ B) x = rmv A x ++ rmv B x. Proof. unfold mv. apply map_app. Qed.
+
+(* if the force-balance rows annihilate T (static) -- or reproduce the velocity term b (dynamic, unit mobility) -- and the tensions
+   have mean one, then (T, 0) solves the augmented system exactly *)
+Theorem equilibrium_solves_augmented (M : list (list R)) (T b : list R) :
+  rows_ok (length T) M -> rmv M T = b -> rsum T = INR (length T) ->
+  rmv (raug M (length T)) (T ++ [0]) = b ++ [INR (length T)].
+Proof. intros HM Hb Hs. unfold raug. rewrite rmv_app. f_equal.
+  - rewrite <- Hb. unfold mv. rewrite map_map. apply map_ext_in. intros r Hr.
+    unfold rows_ok in HM. rewrite Forall_forall in HM. rewrite rdot_app by (apply HM; exact Hr). unfold vdot at 2. simpl. ring.
+  - simpl. f_equal. rewrite rdot_app by apply repeat_length. rewrite rdot_ones, Hs. unfold vdot. simpl. ring. Qed.
+
+Lemma rsqn_zero (v : list R) : rsqn v = 0 -> Forall (fun x => x = 0) v.
+Proof. unfold sqn. induction v as [|x v IH]; intros H; [constructor|]. rewrite rdot_cons in H.
+  pose proof (rsqn_nonneg v) as Hn. unfold sqn in Hn. assert (x * x = 0 /\ rdot v v = 0) as [Hx Hv] by nra.
+  constructor; [nra|apply IH; exact Hv]. Qed.
+
+Lemma rsub_zero_eq (a b : list R) : length a = length b -> Forall (fun x => x = 0) (rsub a b) -> a = b.
+Proof. revert b; induction a as [|x a IH]; intros [|y b] H F; simpl in *; try lia; [reflexivity|].
+  change (rsub (x :: a) (y :: b)) with (x - y :: rsub a b) in F. inversion F; subst. f_equal; [lra|apply IH; [lia|assumption]]. Qed.
+
+(* uniqueness: if the augmented matrix is injective and some non-negative z* solves the system exactly, every minimiser of the
+   residual over the non-negative orthant equals z* -- the reported tensions are the true ones *)
+Theorem zero_residual_minimiser_unique n (A : list (list R)) (b z zs : list R) :
+  rows_ok n A -> length b = length A -> length z = n -> length zs = n ->
+  (forall d, length d = n -> Forall (fun x => x = 0) (rmv A d) -> Forall (fun x => x = 0) d) ->
+  rmv A zs = b -> nonneg zs ->
+  (forall y, length y = n -> nonneg y -> rsqn (rsub (rmv A z) b) <= rsqn (rsub (rmv A y) b)) ->
+  z = zs.
+Proof. intros HA Hb Hz Hzs Hinj Hsol Hnn Hmin.
+  assert (H0 : rsqn (rsub (rmv A zs) b) = 0).
+  { rewrite Hsol. clear. unfold sqn. induction b as [|x b IH]; [reflexivity|].
+    change (rsub (x :: b) (x :: b)) with (x - x :: rsub b b). rewrite rdot_cons, IH. ring. }
+  pose proof (Hmin zs Hzs Hnn) as Hle. rewrite H0 in Hle. pose proof (rsqn_nonneg (rsub (rmv A z) b)) as Hge.
+  assert (Hz0 : rsqn (rsub (rmv A z) b) = 0) by lra. apply rsqn_zero in Hz0.
+  assert (HAz : rmv A z = b) by (apply rsub_zero_eq; [rewrite rmv_length; congruence|exact Hz0]).
+  assert (Hd : Forall (fun x => x = 0) (rsub z zs)).
+  { apply Hinj; [rewrite rsub_length; congruence|]. assert (HA' : rows_ok (length z) A) by (rewrite Hz; exact HA).
+    rewrite (rmv_sub A z zs HA') by congruence. rewrite HAz, Hsol. clear. induction b as [|x b IH]; [constructor|].
+    change (rsub (x :: b) (x :: b)) with (x - x :: rsub b b). constructor; [ring|exact IH]. }
+  apply rsub_zero_eq; [congruence|exact Hd]. Qed.
